@@ -84,7 +84,7 @@ def obs_rel(ctx, res, rec_args, label, rules, timeout=3000):
 
 def replay_rel(ctx, res, v, rules):
     ctx.build()
-    case = [{"p": v["p"], "o": v["options"], "dia": v["dialect"], "rtl": v["rtl"], "exact": v["exact"], "variant": v["variant"], "s": v["input"]}]
+    case = [{"p": v["p"], "text": v["pattern"], "o": v["options"], "dia": v["dialect"], "rtl": v["rtl"], "exact": v["exact"], "variant": v["variant"], "s": v["input"]}]
     cpath = os.path.join(ctx.dir, "case.json")
     json.dump(case, open(cpath, "w"))
     path = os.path.join(ctx.dir, "replay.ndjson")
@@ -100,10 +100,10 @@ def attribute_rel(ctx, viols, gate, rules):
     for v in viols:
         if "p" not in v or "input" not in v:
             continue
-        key = json.dumps([v["p"], v["options"], v["rtl"], v["variant"], v["input"]])
+        key = json.dumps([v["p"], v["pattern"], v["options"], v["rtl"], v["variant"], v["input"]])
         if key not in keyed:
             keyed[key] = len(cases) + 1
-            cases.append({"p": v["p"], "o": v["options"], "dia": v["dialect"], "rtl": v["rtl"], "exact": v["exact"],
+            cases.append({"p": v["p"], "text": v["pattern"], "o": v["options"], "dia": v["dialect"], "rtl": v["rtl"], "exact": v["exact"],
                           "variant": v["variant"], "s": v["input"]})
     if not cases:
         return []
@@ -114,4 +114,4 @@ def attribute_rel(ctx, viols, gate, rules):
     out = ctx.tlc("Obs_Rel", "Obs.cfg", env_extra={"VERIF_OBS": path})
     still = {b["id"] for b in out["tags"].get("BAD", []) if b["rule"].startswith(rules)}
     return [v for v in viols if "p" in v and "input" in v and
-            keyed[json.dumps([v["p"], v["options"], v["rtl"], v["variant"], v["input"]])] not in still]
+            keyed[json.dumps([v["p"], v["pattern"], v["options"], v["rtl"], v["variant"], v["input"]])] not in still]
